@@ -1027,3 +1027,39 @@ Proof.
   - apply data_has_schema; assumption.
   - eapply facts_hold; eauto.
 Qed.
+
+(* ---- which template a module executes --------------------------------------------------------- *)
+
+Lemma assoc_load : forall tbl cfg m,
+  NoDup (map mc_name cfg) -> In m cfg ->
+  assoc (mc_name m) (load_templates tbl cfg) =
+  Some (lookup_tmpl tbl (mc_open m), if mc_send_close m then Some (lookup_tmpl tbl (mc_close m)) else None).
+Proof.
+  intros tbl cfg m. induction cfg as [|c r IH]; simpl; intros Hnd Hin; [contradiction|].
+  inversion Hnd as [|? ? Hnotin Hnd']; subst.
+  destruct Hin as [->|Hin].
+  - rewrite String.eqb_refl. reflexivity.
+  - destruct (String.eqb (mc_name m) (mc_name c)) eqn:E.
+    + apply String.eqb_eq in E. exfalso. apply Hnotin. rewrite <- E. apply in_map. assumption.
+    + apply IH; assumption.
+Qed.
+
+(* What a configured module renders for an open (close) notification is exec of the template named by its
+   template-open (template-close) key; module names are the keys of the "notifier" configuration map, hence distinct. *)
+Theorem module_renders_configured_template : forall sch tbl cfg m d,
+  NoDup (map mc_name cfg) -> In m cfg ->
+  module_renders sch tbl cfg (mc_name m) false d = exec sch (lookup_tmpl tbl (mc_open m)) d /\
+  (mc_send_close m = true ->
+   module_renders sch tbl cfg (mc_name m) true d = exec sch (lookup_tmpl tbl (mc_close m)) d).
+Proof.
+  intros sch tbl cfg m d Hnd Hin. unfold module_renders. rewrite (assoc_load tbl cfg m Hnd Hin).
+  split; [reflexivity|]. intros ->. reflexivity.
+Qed.
+
+Lemma assoc_In : forall {A} n (l : list (string * A)) x, assoc n l = Some x -> In (n, x) l.
+Proof.
+  induction l as [|[k a] r IH]; simpl; intros x H; [discriminate|].
+  destruct (String.eqb n k) eqn:E.
+  - apply String.eqb_eq in E. inversion H; subst. left; reflexivity.
+  - right. auto.
+Qed.
